@@ -7,14 +7,14 @@
    emitted (cut to c visible runes when AutoTrim a is on). *)
 From Coq Require Import List NArith ZArith Bool Arith.
 From RareV Require Import Base.Hex Base.Res Gen.GenTerm Model.Trim Model.Term.
-From RareV Require Import Proofs.TrimProof Proofs.TermEmu Proofs.TermMain Proofs.TrimStore Proofs.TermBuffered.
+From RareV Require Import Proofs.TrimProof Proofs.TermEmu Proofs.TermMain Proofs.TrimStore Proofs.TermBuffered Proofs.TermCheck.
 Import ListNotations.
 
 (* Clause 1 (screen, close).  For every history of (line, text) updates whose texts are
-   well-formed and, as emitted, not wider than the terminal (on a terminal with the DEC last-column
-   flag: narrower than the terminal, see C20_dec_margin_refuted) — any order, repeats, gaps, growing
-   and shrinking texts — every terminal width, both settings of ONLCR, both margin behaviours,
-   both settings of AutoTrim
+   well-formed and, as emitted, not wider than the terminal (exactly as wide included) — any order,
+   repeats, gaps, growing and shrinking texts — every terminal width, both settings of ONLCR,
+   both margin behaviours (idealised, and the DEC last-column flag of VT100 / xterm), both settings
+   of AutoTrim
    and every computedCols: feeding the bytes of New(); WriteForLine...; Close() to the reference
    terminal leaves it in the ground state with, on every row l (also rows never written and rows
    below the last line), exactly the visible runes of the text last written to line l — a longer
@@ -23,8 +23,7 @@ Import ListNotations.
 Theorem C20_screen_latest : forall (tc : tcfg) (c : cfg) (ups : list (nat * text)),
   (forall u, In u ups ->
      wf_text (snd u) = true /\
-     length (visible (write_line_no_wrap (autotrim c) (cols c) (snd u))) + (if dec tc then 1 else 0)
-       <= width tc) ->
+     length (visible (write_line_no_wrap (autotrim c) (cols c) (snd u))) <= width tc) ->
   exists sc, run tc (scr0, Ground) (tw_output c ups) = (sc, Ground) /\
     (forall l, nth l (rows sc) [] = visible (write_line_no_wrap (autotrim c) (cols c) (last_write l ups))) /\
     crow sc = S (max_line ups) /\ ccol sc = 0 /\ cvis sc = true /\ hides sc <= 1.
@@ -32,10 +31,10 @@ Proof. exact C20_screen_latest_proof. Qed.
 Print Assumptions C20_screen_latest.
 
 (* Clause 1 with AutoTrim on: no width hypothesis on the texts is needed — whatever their
-   length, well-formed texts never wrap on a terminal at least computedCols wide (wider than
-   computedCols if the terminal has the DEC last-column flag). *)
+   length, well-formed texts never wrap on a terminal at least computedCols wide (either margin
+   behaviour; in particular width = computedCols, the real configuration). *)
 Theorem C20_screen_latest_trim : forall (tc : tcfg) (c : cfg) (ups : list (nat * text)),
-  autotrim c = true -> Z.to_nat (cols c) + (if dec tc then 1 else 0) <= width tc ->
+  autotrim c = true -> Z.to_nat (cols c) <= width tc ->
   (forall u, In u ups -> wf_text (snd u) = true) ->
   exists sc, run tc (scr0, Ground) (tw_output c ups) = (sc, Ground) /\
     (forall l, nth l (rows sc) [] = visible (trim (cols c) (last_write l ups))) /\
@@ -56,8 +55,7 @@ Print Assumptions C20_screen_latest_trim.
 Theorem C20_cursor_belief : forall (tc : tcfg) (c : cfg) (ups : list (nat * text)) (s : tw) (segs : list (list cmd)),
   (forall u, In u ups ->
      wf_text (snd u) = true /\
-     length (visible (write_line_no_wrap (autotrim c) (cols c) (snd u))) + (if dec tc then 1 else 0)
-       <= width tc) ->
+     length (visible (write_line_no_wrap (autotrim c) (cols c) (snd u))) <= width tc) ->
   tw_run c tw_new ups = (s, segs) ->
   exists sc, run tc (scr0, Ground) (render (concat segs)) = (sc, Ground) /\
     crow sc = tw_cursor s /\ tw_cursor s = last_line ups 0 /\
@@ -146,6 +144,35 @@ Theorem C20_trim_runes : TrimSeqStart = 27%N /\ TrimSeqEnd = 109%N.
 Proof. vm_compute. split; reflexivity. Qed.
 Print Assumptions C20_sequences.
 
+(* The boolean form evaluated on the implementation's per-call output (correspondence, kind 1).
+   Soundness: for every history whose texts fit (fits = well-formed and not wider than the
+   terminal), every width, margin behaviour, ONLCR and AutoTrim setting: if C20_check_live accepts
+   a stream of segments, then on the reference terminal, after the k-th segment the terminal is
+   in its ground state, its cursor is on the line of the k-th update and EVERY row shows exactly
+   the visible runes of the text last written to it by the first k updates (nothing wrapped,
+   nothing stale, nothing below the lowest line); after the whole stream every row shows the
+   latest text and the cursor is parked on row max_line+1, column 0, visible. *)
+Theorem C20_check_live_sound : forall (tc : tcfg) (c : cfg) (ups : list (nat * text)) (segs : list (list N)),
+  fits tc c ups = true -> C20_check_live tc c ups segs = true ->
+  length segs = S (length ups) /\
+  (forall k, k < length ups ->
+     let ek := run tc (scr0, Ground) (concat (firstn (S k) segs)) in
+     snd ek = Ground /\ crow (fst ek) = fst (nth k ups (0, [])) /\
+     forall l, nth l (rows (fst ek)) [] =
+               visible (write_line_no_wrap (autotrim c) (cols c) (last_write l (firstn (S k) ups)))) /\
+  exists sc, run tc (scr0, Ground) (concat segs) = (sc, Ground) /\
+    (forall l, nth l (rows sc) [] = visible (write_line_no_wrap (autotrim c) (cols c) (last_write l ups))) /\
+    crow sc = S (max_line ups) /\ ccol sc = 0 /\ cvis sc = true.
+Proof. exact C20_check_live_sound_proof. Qed.
+Print Assumptions C20_check_live_sound.
+
+(* Completeness on the model: the check accepts the model's own per-call output for every
+   history (also outside the theorem's domain, where it is vacuous), width, margin and setting *)
+Theorem C20_check_live_ok : forall (tc : tcfg) (c : cfg) (ups : list (nat * text)),
+  C20_check_live tc c ups (map render (tw_session c ups)) = true.
+Proof. exact C20_check_live_ok_proof. Qed.
+Print Assumptions C20_check_live_ok.
+
 (* the boolean form used on the implementation's output accepts what the model's BufferedTerm prints *)
 Theorem C20_check_buffered_ok : forall (c : cfg) (ups : list (nat * text)) (out : text) (v : vterm),
   bt_session (autotrim c) (cols c) ups = Ok (out, v) -> C20_check_buffered c ups out = true.
@@ -156,25 +183,19 @@ Theorem C20_check_trim_ok : forall (c : Z) (s : text), C20_check_trim c s (trim 
 Proof. exact C20_check_trim_sound. Qed.
 Print Assumptions C20_check_trim_ok.
 
-(* Recorded finding C20-dec-margin (the full statement is false on DEC-style terminals; the
-   restriction to texts narrower than the terminal is C20_screen_latest with dec tc = true).
-   On a terminal with the last-column flag (VT100..., xterm), width 3 = computedCols 3, AutoTrim
-   on: the text abcd is cut to abc and fits, but the erase-to-end-of-line that follows is issued
-   with the cursor still ON the last column, so the screen shows ab. *)
-Theorem C20_dec_margin_refuted :
-  exists (tc : tcfg) (c : cfg) (ups : list (nat * text)),
-    dec tc = true /\ cols c = Z.of_nat (width tc) /\ autotrim c = true /\
-    (forall u, In u ups -> wf_text (snd u) = true /\
-       length (visible (write_line_no_wrap (autotrim c) (cols c) (snd u))) <= width tc) /\
-    nth 0 (rows (fst (run tc (scr0, Ground) (tw_output c ups)))) []
-      <> visible (write_line_no_wrap (autotrim c) (cols c) (last_write 0 ups)).
-Proof.
-  exists (mktc 3 false true), (mkcfg true 3), [(0, [97;98;99;100]%N)].
-  split; [reflexivity|]. split; [reflexivity|]. split; [reflexivity|]. split.
-  - intros u [<-|[]]. vm_compute. split; [reflexivity | repeat constructor].
-  - vm_compute. discriminate.
-Qed.
-Print Assumptions C20_dec_margin_refuted.
+(* Finding C20-dec-margin (repaired by fixes/C20-dec-margin.patch; the model is of the repaired
+   order CR, erase, text).  On a terminal with the last-column flag, width 3 = computedCols 3,
+   AutoTrim on, the text abcd is cut to abc and shown whole (first statement, also an instance of
+   C20_screen_latest).  The order of the pinned tree — CR, text, erase — issued the erase with the
+   cursor still ON the last column and left ab on the screen (second statement, the pinned
+   sequence written out). *)
+Theorem C20_dec_margin_repaired :
+  nth 0 (rows (fst (run (mktc 3 false true) (scr0, Ground)
+                        (tw_output (mkcfg true 3) [(0, [97;98;99;100]%N)])))) [] = [97;98;99]%N /\
+  nth 0 (rows (fst (run (mktc 3 false true) (scr0, Ground)
+                        (render [HideCur; CR; Text [97;98;99]%N; EraseEOL; CR; LF; ShowCur])))) [] = [97;98]%N.
+Proof. vm_compute. split; reflexivity. Qed.
+Print Assumptions C20_dec_margin_repaired.
 
 (* non-vacuity: width 3, trim on; line 2 is written with a coloured 4-cell text (cut to 3 cells,
    inside no sequence), line 0 is rewritten with a shorter text, line 1 is never written *)
@@ -185,7 +206,7 @@ Example C20_example :
   = mkscr [[88]; []; [97;98;99]]%N 3 0 true 1 /\
   C20_check_live (mktc 3 false false) (mkcfg true 3) ups (map render (tw_session (mkcfg true 3) ups)) = true /\
   fits (mktc 3 false false) (mkcfg true 3) ups = true /\
-  (* the same history on a 4-column terminal with the DEC last-column flag *)
-  fst (run (mktc 4 true true) (scr0, Ground) (tw_output (mkcfg true 3) ups))
+  (* the same history on a 3-column terminal with the DEC last-column flag and ONLCR *)
+  fst (run (mktc 3 true true) (scr0, Ground) (tw_output (mkcfg true 3) ups))
   = mkscr [[88]; []; [97;98;99]]%N 3 0 true 1.
 Proof. vm_compute. repeat split. Qed.
